@@ -14,3 +14,16 @@ package l4proxyprotocol
 //@ ensures[C06] (err == layer4.ErrConsumedAllPrefetchedBytes) == (old(avail(cx)) < 12)
 //@ ensures[C06] err != nil ==> !matched
 //@ ensures[C14] err == nil ==> matched == (old(bytes(cx.buf[cx.offset:cx.offset+5])) == "PROXY" || old(bytes(cx.buf[cx.offset:cx.offset+12])) == "\r\n\r\n\x00\r\nQUIT\n")
+// The handler: peers outside the allow list are passed through untouched (the same connection goes to
+// the next handler); otherwise the connection handed on must satisfy the handler interface's
+// precondition (C01): a well-formed layer4 connection whose buffer, if any, holds bytes of its own
+// inner conn (the PROXY parser's connection, which delivers the stream that follows the header).
+//@ func (h *Handler) Handle(cx *layer4.Connection, next layer4.Handler) (err error)
+//@ requires wfcx(cx) && wf(cx) && !cx.matching && h != nil && !isnil(next) && h.logger != nil
+//@ safety C01
+
+//@ func (h *Handler) newConn(cx *layer4.Connection) (c *proxyprotocol.Conn)
+//@ requires wfcx(cx) && h != nil
+//@ safety C01
+//@ assigns nothing
+//@ ensures[C01] c != nil ==> fresh(c) && c.Conn == cx
